@@ -299,7 +299,8 @@ func (c *clipperBase) buildPath(op *OutPt, reverse, isOpen bool, path *Path64) b
 }
 
 func (c *clipperBase) executeInternal(ct ClipType, fillRule FillRule) {
-	if ct == NoClip {
+	if ct == NoClip || ct > Xor {
+		c.succeeded = true
 		return
 	}
 
